@@ -7,6 +7,7 @@ chunks with a kill point in between, so that a half-written file is a reachable 
 import json
 import os
 import sys
+import time
 
 MUT_EVENTS = {"os.mkdir", "os.remove", "os.rmdir", "os.rename", "os.utime", "os.chmod", "os.truncate", "os.link",
               "os.symlink", "os.chown", "os.replace"}
@@ -30,26 +31,47 @@ def run_attempt(fn, kill_at=None, sorted_scandir=None, chunked=True):
     pid = os.fork()
     if pid == 0:
         os.close(r)
+        os.setsid()  # own process group: the parent removes the call's worker processes with it
         try:
             _child(fn, kill_at, sorted_scandir, chunked, w)
         finally:
             os._exit(99)
     os.close(w)
     buf = b""
-    while True:
+    events, outcome = [], None
+    # read until the child reported its outcome (worker processes it started may keep the pipe open)
+    while outcome is None:
         b = os.read(r, 65536)
         if not b:
             break
         buf += b
+        while b"\n" in buf:
+            ln, buf = buf.split(b"\n", 1)
+            d = json.loads(ln.decode())
+            if d[0] == "op":
+                events.append(d[1:])
+            else:
+                outcome = tuple(d)
     os.close(r)
-    _, status = os.waitpid(pid, 0)
-    events, outcome = [], None
-    for ln in buf.decode().splitlines():
-        d = json.loads(ln)
-        if d[0] == "op":
-            events.append(d[1:])
+    import signal
+    if outcome is not None and outcome[0] != "crash":
+        # give a normally finishing child a moment to exit by itself, then remove its whole process group
+        # (joblib workers of the call would otherwise linger)
+        for _ in range(200):
+            done, status = os.waitpid(pid, os.WNOHANG)
+            if done:
+                break
+            time.sleep(0.005)
         else:
-            outcome = tuple(d)
+            status = None
+    else:
+        status = None
+    try:
+        os.killpg(pid, signal.SIGKILL)
+    except (ProcessLookupError, PermissionError):
+        pass
+    if status is None:
+        _, status = os.waitpid(pid, 0)
     code = os.waitstatus_to_exitcode(status)
     if outcome is None:
         outcome = ("died", code)
